@@ -1,3 +1,5 @@
+//go:build !kq
+
 package main
 
 import (
@@ -10,32 +12,6 @@ import (
 	"golang.org/x/sys/unix"
 	"verifsim/sinot"
 )
-
-// Violation is one property violation found in a run.
-type Violation struct {
-	Kind    string `json:"kind"`
-	Watcher int    `json:"watcher"`
-	Detail  string `json:"detail"`
-	Site    string `json:"site,omitempty"` // site signature (function names / op kinds), no line numbers
-}
-
-func (v Violation) Sig() string { return v.Kind + "|" + v.Site }
-
-// RunResult is what the analysis of one run produces.
-type RunResult struct {
-	Outcome     string         `json:"outcome"`
-	Violations  []Violation    `json:"violations,omitempty"`
-	Fingerprint string         `json:"fingerprint"`
-	Steps       int            `json:"steps"`
-	Decisions   int            `json:"decisions"`
-	States      int            `json:"states"`
-	Nontrivial  bool           `json:"nontrivial"`
-	Counters    map[string]int `json:"counters"`
-	Relax       map[string]int `json:"relax,omitempty"`
-	Inconcl     string         `json:"inconclusive,omitempty"`
-	Deadlock    []string       `json:"deadlock,omitempty"`
-	Sample      interface{}    `json:"sample,omitempty"`
-}
 
 type frontier struct {
 	progress int
